@@ -1,0 +1,17 @@
+//go:build verif
+
+package max
+
+// Contracts for uda/max (C23), checked by /verif/govc. Compiled only with -tags=verif.
+
+
+//@ func (*Max).Accum
+//@ props C23
+//@ assumes #pkgvar: len(requiredColumns) >= 1
+//@ loop 0 invariant #idx: 0 <= iter0 && iter0 <= len(inputCol) && m.IsInitialized
+//@ loop 0 invariant #upper: forall(k, 0, iter0, m.Max >= inputCol[k])
+//@ loop 0 invariant #attained: (old(m.IsInitialized) && m.Max == old(m.Max)) || existsint(a, pattern(mem(inputCol)[a]), base(inputCol) <= a && a < base(inputCol)+len(inputCol) && m.Max == mem(inputCol)[a])
+//@ loop 0 invariant #notBelow: old(m.IsInitialized) ==> m.Max >= old(m.Max)
+//@ exit #upper: result1 == nil && len(inputCol) > 0 ==> forall(k, 0, len(inputCol), m.Max >= inputCol[k])
+//@ exit #attained: result1 == nil && len(inputCol) > 0 ==> ((old(m.IsInitialized) && m.Max == old(m.Max)) || existsint(a, pattern(mem(inputCol)[a]), base(inputCol) <= a && a < base(inputCol)+len(inputCol) && m.Max == mem(inputCol)[a]))
+//@ exit #notBelow: result1 == nil && len(inputCol) > 0 && old(m.IsInitialized) ==> m.Max >= old(m.Max)
